@@ -1,4 +1,4 @@
-(* Persist/PTop.v — the persist-mode model across ALL its API operations, snapshot and restore
+(* Persist/LTop.v — the persist-mode model across ALL its API operations, snapshot and restore
    included, and the results theorems of C26:
 
    [results_no_restore]  every Get of every history WITHOUT restore (snapshots allowed: they do
@@ -11,13 +11,11 @@
                          the inputs come back with their stamps), when the persisted functions
                          only call persisted functions ([Statement.persisted_closed]);
    [restore_flat_ok], [restore_flat_ok_clean]
-                         the same for ALL durabilities when the functions that are not persisted
-                         only call functions that are not persisted ([Statement.np_closed]): the
-                         flattened dependencies, to any depth, become observers at the revisions
-                         their memos were verified at, or at their caller's revision when they
-                         are older ([exp_good], from ProofsFlatten.flatten_closed / flatten_fn /
-                         flatten_under / flatten_vis_inv);
-   [results_closed], [results_np]
+                         the same for EVERY program and choice of persisted functions in flat mode
+                         (all durabilities LOW): the flattened dependencies, to any depth, become
+                         observers at the revisions their memos were verified at ([exp_good],
+                         from ProofsFlatten.flatten_closed / flatten_fn / flatten_under);
+   [results_closed], [results_low]
                          hence: every Get of every history with snapshots and restores returns
                          the from-scratch value of the current inputs, or unwinds with a base
                          panic, outside the uninitialised-ingredient class;
@@ -25,13 +23,13 @@
                          any state that satisfies [pstate_ok].
 
    The [_strict] forms say which panics may unwind a request: only an injected fault while a
-   fault switch is on (PInv.dallowed); the backdate-violation assertion is unreachable (stamps
-   never decrease: PInv.ext_mono, PInvSem.frame_changed_lb). *)
+   fault switch is on (LInv.dallowed); the backdate-violation assertion is unreachable (stamps
+   never decrease: LInv.ext_mono, LInvSem.frame_changed_lb). *)
 From Salsa Require Import Base.
 From Salsa.Kern Require Import CoreK CoreKFacts.
 From Salsa.Core Require Import Model Spec SpecProofs Inv DurSem.
 From Salsa.Core Require InvTop.
-From Salsa.Persist Require Import Model PSem PWp PInv PInvSem PInvOps PInvTop ProofsRoundtrip ProofsFlatten.
+From Salsa.Persist Require Import Model PSem PWp LInv LInvSem LInvOps LInvTop ProofsRoundtrip ProofsFlatten.
 From Salsa.Persist Require Statement.
 
 Section Top.
@@ -45,12 +43,14 @@ Hypothesis Hrank : calls_below (tprog uprog) rank.
 Variable NF : nat.
 Hypothesis Hbound : forall q, (rank q < NF)%nat.
 Variable sfuel : nat.
+(* flat mode: restored memos whose dependencies were flattened away are allowed, all
+   durabilities are LOW; otherwise every memo records its direct reads *)
+Variable fm : bool.
 Let prog : qkey -> CM.body := tprog uprog.
-Let pf : qkey -> bool := fun q => pfam (fst q).
-Notation DInv := (DInv prog NF pf).
-Notation OK := (OK uprog NF pf).
-Notation OK_d := (OK_d uprog NF pf).
-Notation fresh := (PInvTop.fresh).
+Notation DInv := (DInv prog NF fm).
+Notation OK := (OK uprog NF fm).
+Notation OK_d := (OK_d uprog NF fm).
+Notation fresh := (LInvTop.fresh).
 Notation pstep := (Statement.pstep uprog noeq pfam fams lru0 sfuel).
 
 (* ---------------------------------------------------------------- new revisions, eviction *)
@@ -86,14 +86,16 @@ Qed.
 Lemma OK_d_new_revision s : OK_d s -> OK (new_revision fams s) /\ fresh (new_revision fams s).
 Proof.
   intros Hok. destruct (new_revision_facts s) as (A & _ & _ & F).
-  destruct (OK_d_inputs uprog NF pf s Hok) as (Rv & Hd3).
+  destruct (OK_d_inputs uprog NF fm s Hok) as (Rv & Hd3 & Hlow).
   pose proof (new_revision_revs s) as Hr.
-  apply (OK_advance_gen uprog rank Hrank NF pf s); auto.
+  apply (OK_advance_gen uprog rank Hrank NF fm s); auto.
   - rewrite Hr. reflexivity.
   - destruct Rv as (R1 & R2 & R3). rewrite Hr. unfold revs_ok; cbn. lia.
   - intros k. apply (new_revision_lcs s k Rv).
   - intros i. left. rewrite A. reflexivity.
   - intros i. rewrite A. apply Hd3.
+  - intros Hf. destruct (Hlow Hf) as [L1 L2]. split; [intros i; rewrite A; apply L1|].
+    intros k Hk. rewrite (proj2 (new_revision_lcs s k Rv) Hk). apply (L2 k Hk).
   - apply evicted_sub_sim; exact F.
 Qed.
 
@@ -113,14 +115,14 @@ Lemma OK_d_zalsa_mut s : OK_d s -> OK_d (zalsa_mut fams s).
 Proof.
   intros Hok. unfold zalsa_mut. destruct (d_ccount s =? 255).
   - apply OK_to_d. apply OK_d_new_revision; exact Hok.
-  - apply (OK_d_same uprog rank Hrank NF pf s); auto. apply evicted_sub_sim, evicted_refl.
+  - apply (OK_d_same uprog rank Hrank NF fm s); auto. apply evicted_sub_sim, evicted_refl.
 Qed.
 
 Lemma OK_zalsa_mut s : OK s -> OK (zalsa_mut fams s).
 Proof.
   intros Hok. unfold zalsa_mut. destruct (d_ccount s =? 255).
   - apply OK_d_new_revision. apply OK_to_d; exact Hok.
-  - apply (OK_same uprog rank Hrank NF pf s); auto. apply evicted_sub_sim, evicted_refl.
+  - apply (OK_same uprog rank Hrank NF fm s); auto. apply evicted_sub_sim, evicted_refl.
 Qed.
 
 Lemma evict_all_facts s :
@@ -151,10 +153,10 @@ Lemma db_get_ok fuel s q :
    end) /\ d_in (fst r) = d_in s /\ d_cell (fst r) = d_cell s.
 Proof.
   intros Hfuel [(H & D & F & HI) Hst]. cbn zeta.
-  destruct (dlevel_ok uprog noeq rank Hrank NF Hbound pf H D F fuel) as [HF HM].
+  destruct (dlevel_ok uprog noeq rank Hrank NF Hbound fm H D F fuel) as [HF HM].
   assert (Hso : stack_ok rank s q) by (intros p Hp; rewrite Hst in Hp; destruct Hp).
   assert (Hq : (rank q <= fuel)%nat) by (specialize (Hfuel q); lia).
-  pose proof (fetch_ok uprog noeq rank Hrank NF Hbound pf H D F (level uprog noeq fuel) fuel HF HM q s Hq HI Hso) as Hwp.
+  pose proof (fetch_ok uprog noeq rank Hrank NF Hbound fm H D F (level uprog noeq fuel) fuel HF HM q s Hq HI Hso) as Hwp.
   unfold wp in Hwp.
   destruct (fetch uprog noeq (level uprog noeq fuel) q s) as [s' [[[v d] c] | p |]] eqn:Hf; cbn [fst snd].
   - destruct Hwp as (HI' & He & _ & Hs' & Hv & _). cbn [fst snd] in Hv.
@@ -162,12 +164,12 @@ Proof.
     split.
     + rewrite Hv. unfold Inv.E.
       rewrite <- (eval_tb uprog NF (Spec.snap_of s) q). rewrite <- csnap_snap_of.
-      exact (Salsa.Core.InvTop.eval_snap_eq (tprog uprog) _ _ (DInv_snap uprog NF pf H D F s HI) NF q).
+      exact (Salsa.Core.InvTop.eval_snap_eq (tprog uprog) _ _ (DInv_snap uprog NF fm H D F s HI) NF q).
     + split; [exists H, D, F; exact HI' | congruence].
   - destruct Hwp as (Ha & HI' & He).
     split; [|split; [apply (ext_in _ _ _ _ _ _ _ He) | apply (ext_cell _ _ _ _ _ _ _ He)]].
     split; [exact Ha|]. split; [|reflexivity].
-    exists H, D, F. apply (DInv_core_eq prog NF pf H D F s'); [repeat split | exact HI'].
+    exists H, D, F. apply (DInv_core_eq prog NF fm H D F s'); [repeat split | exact HI'].
   - destruct Hwp.
 Qed.
 
@@ -175,19 +177,23 @@ Qed.
 Lemma OK_d_same_cells s s' :
   OK_d s -> d_revs s' = d_revs s -> d_in s' = d_in s -> d_memo s' = d_memo s -> OK_d s'.
 Proof.
-  intros Hok Hr Hi Hm. apply (OK_d_same uprog rank Hrank NF pf s); auto.
+  intros Hok Hr Hi Hm. apply (OK_d_same uprog rank Hrank NF fm s); auto.
   rewrite Hm. apply evicted_sub_sim, evicted_refl.
 Qed.
 
 Lemma OK_same_all s s' :
   OK s -> d_revs s' = d_revs s -> d_in s' = d_in s -> d_cell s' = d_cell s -> d_memo s' = d_memo s -> OK s'.
 Proof.
-  intros Hok Hr Hi Hc Hm. apply (OK_same uprog rank Hrank NF pf s); auto.
+  intros Hok Hr Hi Hc Hm. apply (OK_same uprog rank Hrank NF fm s); auto.
   rewrite Hm. apply evicted_sub_sim, evicted_refl.
 Qed.
 
+(* in flat mode a write keeps the durability LOW *)
+Definition low_dur (d : option dur) : Prop :=
+  fm = true -> match d with Some d' => d' = 0 | None => True end.
+
 Lemma db_set_ok dirty s i v d :
-  Statement.dur_op (OSet i v d) -> state_ok dirty s ->
+  Statement.dur_op (OSet i v d) -> low_dur d -> state_ok dirty s ->
   let s1 := new_revision fams (zalsa_mut fams s) in
   state_ok false s1 /\
   (f_dur (d_in s1 i) =? D_NEVER = false ->
@@ -196,7 +202,7 @@ Lemma db_set_ok dirty s i v d :
                 f_dur := match d with Some d' => d' | None => f_dur (d_in s1 i) end |} in
    state_ok false (set_in (set_revs s1 r1) (upd (d_in s1) i f'))).
 Proof.
-  intros Hdop Hok. pose proof (state_ok_d dirty s Hok) as Hd.
+  intros Hdop Hlowd Hok. pose proof (state_ok_d dirty s Hok) as Hd.
   assert (Hst : d_stack s = []) by (destruct Hok; assumption).
   pose proof (OK_d_zalsa_mut s Hd) as Hz.
   destruct (OK_d_new_revision _ Hz) as [Hn Hfresh].
@@ -208,7 +214,7 @@ Proof.
   intros Hnever. split; [|exact Hst1].
   apply N.eqb_neq in Hnever. unfold D_NEVER in Hnever.
   destruct (new_revision_facts z) as (A & _ & _ & F). fold s1 in A, F.
-  destruct (OK_d_inputs uprog NF pf z Hz) as (Rv & Hd3).
+  destruct (OK_d_inputs uprog NF fm z Hz) as (Rv & Hd3 & Hlow).
   pose proof (new_revision_revs z) as Hr. fold s1 in Hr.
   assert (Rv1 : revs_ok (d_revs s1)).
   { destruct Rv as (R1 & R2 & R3). rewrite Hr. unfold revs_ok; cbn. lia. }
@@ -233,7 +239,7 @@ Proof.
       destruct (N.eqb_spec od 0) as [E0 | Hk0]; [reflexivity|].
       destruct (N.leb_spec od od) as [_ | Hx]; [|lia].
       destruct (N.ltb_spec od 3) as [_ | Hx]; [|lia]. reflexivity. }
-  refine (proj1 (OK_advance_gen uprog rank Hrank NF pf z s2 Hz _ _ _ _ _ _)).
+  refine (proj1 (OK_advance_gen uprog rank Hrank NF fm z s2 Hz _ _ _ _ _ _ _)).
   - cbn. rewrite Hcur_r1, Hr. reflexivity.
   - cbn. unfold r1. destruct (od =? D_LOW); [exact Rv1 | apply revs_ok_report_write; exact Rv1].
   - intros k. pose proof (proj1 (new_revision_lcs z k Rv)) as B. fold s1 in B. specialize (Hlc12 k). lia.
@@ -245,15 +251,25 @@ Proof.
   - intros j. destruct (key_eqb_spec j i) as [-> | Hji].
     + unfold s2; cbn. rewrite upd_same. cbn. destruct d as [d'|]; [exact Hdop | lia].
     + unfold s2; cbn. rewrite upd_other by congruence. rewrite A. apply Hd3.
+  - intros Hf. destruct (Hlow Hf) as [L1 L2].
+    assert (Hod0 : od = 0) by (rewrite Hod; apply L1).
+    split.
+    + intros j. destruct (key_eqb_spec j i) as [-> | Hji].
+      * unfold s2; cbn. rewrite upd_same. cbn. specialize (Hlowd Hf). destruct d as [d'|]; [exact Hlowd | exact Hod0].
+      * unfold s2; cbn. rewrite upd_other by congruence. rewrite A. apply L1.
+    + intros k Hk. unfold lcs, s2; cbn. unfold r1. rewrite Hod0. cbn.
+      pose proof (proj2 (new_revision_lcs z k Rv) Hk) as B. fold s1 in B. unfold lcs in B. rewrite B.
+      apply (L2 k Hk).
   - unfold s2; cbn. apply evicted_sub_sim. exact F.
 Qed.
 
 Lemma db_synth_ok dirty s d :
+  (fm = true -> d = 0) ->
   state_ok dirty s ->
   let s1 := new_revision fams (zalsa_mut fams s) in
   state_ok false s1 /\ state_ok false (set_revs s1 (report_write (d_revs s1) d)).
 Proof.
-  intros Hok. pose proof (state_ok_d dirty s Hok) as Hd.
+  intros Hlowd Hok. pose proof (state_ok_d dirty s Hok) as Hd.
   assert (Hst : d_stack s = []) by (destruct Hok; assumption).
   pose proof (OK_d_zalsa_mut s Hd) as Hz.
   destruct (OK_d_new_revision _ Hz) as [Hn Hfresh].
@@ -262,10 +278,13 @@ Proof.
   { unfold s1. destruct (new_revision_facts (zalsa_mut fams s)) as (_ & _ & E0 & _).
     rewrite E0, zalsa_mut_stack. exact Hst. }
   split; [split; assumption|]. split; [|exact Hst1].
-  destruct (OK_d_inputs uprog NF pf s1 (OK_to_d uprog NF pf s1 Hn)) as (Hrv1 & _).
-  apply (OK_revs uprog rank Hrank NF pf s1); auto.
+  destruct (OK_d_inputs uprog NF fm s1 (OK_to_d uprog NF fm s1 Hn)) as (Hrv1 & _ & Hlow).
+  apply (OK_revs uprog rank Hrank NF fm s1); auto.
   - cbn. apply revs_ok_report_write; exact Hrv1.
   - intros k. unfold lcs; cbn. apply lc_report_write_ge; exact Hrv1.
+  - intros Hf k Hk. rewrite (Hlowd Hf). unfold lcs; cbn. rewrite lc_report_write.
+    destruct (N.eqb_spec k 0) as [-> | _]; [lia|].
+    destruct (N.leb_spec k 0) as [Hx | _]; [lia|]. cbn. apply (proj2 (Hlow Hf) k Hk).
 Qed.
 
 (* ---------------------------------------------------------------- restore (snapshot s) *)
@@ -289,7 +308,7 @@ Proof.
 Qed.
 
 Lemma snapshot_sub_sim H D F s :
-  DInv_d uprog NF pf H D F s -> sub_sim (d_memo s) (snap_memo pfam (d_memo s) sfuel).
+  DInv_d uprog NF fm H D F s -> sub_sim (d_memo s) (snap_memo pfam (d_memo s) sfuel).
 Proof.
   intros HI q m' Hs. unfold snap_memo in Hs.
   destruct (d_memo s q) as [m|] eqn:Hm; [|discriminate].
@@ -314,7 +333,7 @@ Theorem restore_ok s ext :
   state_ok true (restore (snapshot pfam sfuel s) ext lru0).
 Proof.
   intros (H & D & F & HI) Hst. split; [|reflexivity].
-  apply (OK_d_same uprog rank Hrank NF pf s); try reflexivity; [exists H, D, F; exact HI|].
+  apply (OK_d_same uprog rank Hrank NF fm s); try reflexivity; [exists H, D, F; exact HI|].
   apply (snapshot_sub_sim H D F s HI).
 Qed.
 
@@ -323,41 +342,35 @@ Theorem restore_ok_clean s ext :
   state_ok false (restore (snapshot pfam sfuel s) ext lru0).
 Proof.
   intros (H & D & F & HI) Hst Hc. split; [|reflexivity].
-  apply (OK_same uprog rank Hrank NF pf s); try reflexivity; [exists H, D, F; exact HI | exact Hc|].
+  apply (OK_same uprog rank Hrank NF fm s); try reflexivity; [exists H, D, F; exact HI | exact Hc|].
   apply (snapshot_sub_sim H D F s). apply DInv_to_d. exact HI.
 Qed.
 
 End Closed.
 
-(* ---------------------------------------------------------------- restore (snapshot s), flattening *)
-(* Any durabilities; the functions that are not persisted only call functions that are not
-   persisted, so that what a snapshot flattens away are memos that record their direct reads.
-   The dependencies that the snapshot flattened away become virtual observers at the revision
-   their memos were verified at, or, when such a memo is older than its caller's (the caller was
-   validated by the durability short-cut), at the caller's revision. *)
-Section NpClosed.
-Hypothesis Hnp : Statement.np_closed uprog pfam.
+(* ---------------------------------------------------------------- restore (snapshot s), flat mode *)
+(* Any program, any choice of persisted functions; all durabilities LOW.  The dependencies
+   that the snapshot flattened away become virtual observers at the revision their memos were
+   verified at. *)
+Section Flat.
+Hypothesis Hfm : fm = true.
 Hypothesis Hsfuel : forall p, (S (rank p) < sfuel)%nat.
-Notation good := (good prog NF pf).
+Notation good := (good prog NF fm).
 Notation obs_ok := (obs_ok prog NF).
-Notation dmemo_ok := (dmemo_ok prog NF pf).
-Notation cconst := (cconst prog NF).
+Notation dmemo_ok := (dmemo_ok prog NF fm).
 
-Lemma obs_sub H D s g w k d :
-  obs_ok H D s g w k -> In (RQ d) (tr prog NF H w g) -> obs_ok H D s d w 0.
+Lemma good_subst H D s s2 L L' v0 v d :
+  (forall g w k, obs_ok H D s g w k -> obs_ok H D s2 g w k) -> cur s <= cur s2 -> v <= v0 ->
+  (forall i, In (EIn i) L -> In (EIn i) L') ->
+  (forall e, In (EQ e) L -> ~ In (EQ e) L' -> good H D s2 L' v e) ->
+  good H D s L v0 d -> good H D s2 L' v d.
 Proof.
-  intros [a b c e] Hd. constructor; auto.
-  - apply (durge_zero prog rank Hrank NF H D).
-  - lia.
-  - intros x mx Hx Hmx Hp. destruct (e x mx (clos_step _ _ _ _ _ _ _ Hd Hx) Hmx Hp) as [A _].
-    split; [exact A | lia].
-Qed.
-
-Lemma reach_np q d : pfam (fst q) = false -> reach prog q d -> pfam (fst d) = false.
-Proof.
-  intros Hp Hr. induction Hr as [q d Hc | q d e Hc _ IH].
-  - apply (Hnp q d Hp). apply calls_tb. exact Hc.
-  - apply IH. apply (Hnp q d Hp). apply calls_tb. exact Hc.
+  intros Hot Hc Hv Hin Hfn Hg. induction Hg as [d a k Hf Hk Ha Hd | d rho k Ho Hv0 Hu Hi Hq IH].
+  - apply (good_never prog NF fm H D s2 L' v d a k Hf Hk); [lia | exact Hd].
+  - apply (good_exp prog NF fm H D s2 L' v d rho k); auto; [lia|].
+    intros d' Hd' Hn. destruct (edge_in_dec (EQ d') L) as [HinL | HnL].
+    + apply Hfn; assumption.
+    + apply IH; assumption.
 Qed.
 
 Section OneState.
@@ -372,13 +385,6 @@ Let edge_rank : forall g m c, mm g = Some m -> In (EQ c) (m_edges m) -> (rank c 
 Proof.
   intros g m c Hm Hc. apply (reach_rank prog rank Hrank).
   apply (mo_edges_reach _ _ _ _ _ _ _ _ _ (HIm g m Hm) c Hc).
-Qed.
-
-(* a memo of the restored database is a memo of a persisted function *)
-Let s2_pf e me2 : d_memo s2 e = Some me2 -> pf e = true.
-Proof.
-  rewrite Hm2. unfold snap_memo. fold mm. destruct (mm e) as [me|]; [|discriminate].
-  destruct (m_val me); [|discriminate]. unfold pf. destruct (pfam (fst e)); [reflexivity | discriminate].
 Qed.
 
 Section OneMemo.
@@ -400,65 +406,49 @@ Proof.
   injection E0 as <-. exists mg. exact Hmg.
 Qed.
 
-(* what was expanded is not persisted *)
-Let vis_np g : In (EQ g) vis -> pfam (fst g) = false.
+Let Hcov_in i : In (EIn i) L -> In (EIn i) out.
 Proof.
-  apply (flatten_vis_inv pfam mm (fun g => pfam (fst g) = false)).
-  - intros g0 m0 g2 Hp0 Hm0 Hg2. apply (reach_np g0 g2 Hp0).
-    apply (mo_edges_reach _ _ _ _ _ _ _ _ _ (HIm g0 m0 Hm0) g2 Hg2).
-  - intros g0 _ Hp0. exact Hp0.
+  intros Hi. destruct Hclosed3 as (V & _ & Cov). destruct (Cov _ Hi) as [Ho | Hv]; [exact Ho|].
+  destruct (V _ Hv) as (g' & mg & E0 & _). discriminate.
 Qed.
 
 (* no expanded dependency had untracked reads *)
 Hypothesis Hvt : forall g mg, In (EQ g) vis -> mm g = Some mg -> m_untracked mg = false.
 
-(* an expanded dependency, read by something that is an observer at beta >= v: a cover node at
-   its memo's revision, or at beta when the memo is older and the dependency constant since *)
-Lemma exp_good : forall n g mg beta, (rank g < n)%nat -> In (EQ g) vis -> mm g = Some mg ->
-  v <= beta -> beta <= cur s ->
-  (m_verified mg < beta -> cconst H (m_verified mg) beta g /\ obs_ok H D s2 g beta 0) ->
-  good H D s2 out beta g.
+Lemma exp_good : forall n g mg, (rank g < n)%nat -> In (EQ g) vis -> mm g = Some mg ->
+  v <= m_verified mg -> good H D s2 out v g.
 Proof.
-  induction n as [|n IH]; intros g mg beta Hn Hg Hmg Hvb Hbc Hlift; [inversion Hn|].
+  induction n as [|n IH]; intros g mg Hn Hg Hmg Hvg; [inversion Hn|].
   pose proof (HIm g mg Hmg) as Hok.
   pose proof (mo_order _ _ _ _ _ _ _ _ _ Hok) as (O1 & O2 & O3).
-  pose proof (mo_direct _ _ _ _ _ _ _ _ _ Hok (vis_np g Hg)) as Hdir.
+  destruct (N.eq_dec (m_dur mg) 0) as [Hz | Hnz].
+  2:{ apply (good_never prog NF fm H D s2 out v g (m_verified mg) (m_dur mg) Hfm); [lia | lia|].
+      apply (mo_durge _ _ _ _ _ _ _ _ _ Hok). }
   destruct Hclosed3 as (V & C & Cov).
-  (* the revision of the node, its observer, its reads *)
-  assert (Hnode : exists rho k, beta <= rho /\ rho <= cur s /\ obs_ok H D s2 g rho k /\
-            tr prog NF H rho g = tr prog NF H (m_verified mg) g /\
-            (forall d' me, In (RQ d') (tr prog NF H (m_verified mg) g) -> mm d' = Some me ->
-               m_verified me < rho -> cconst H (m_verified me) rho d')).
-  { destruct (N.le_gt_cases beta (m_verified mg)) as [Hle | Hgt].
-    - exists (m_verified mg), (m_dur mg). split; [exact Hle|]. split; [exact O3|].
-      split; [apply Hot; apply (obs_of_memo prog NF pf H D F s g mg Hok)|]. split; [reflexivity|].
-      intros d' me Hd' Hme Hlt.
-      destruct (mo_sync _ _ _ _ _ _ _ _ _ Hok d' me (Hdir d' Hd') (clos_one _ _ _ _ _ _ Hd') Hme) as [A | A]; [lia | exact A].
-    - destruct (Hlift Hgt) as [CCg Og]. exists beta, 0. split; [lia|]. split; [exact Hbc|].
-      split; [exact Og|]. split.
-      + apply (CCg g (clos_refl _ _ _ _ _) beta); lia.
-      + intros d' me Hd' Hme Hlt.
-        pose proof (cconst_sub prog NF H _ _ g d' CCg (clos_one _ _ _ _ _ _ Hd')) as CCd.
-        destruct (mo_sync _ _ _ _ _ _ _ _ _ Hok d' me (Hdir d' Hd') (clos_one _ _ _ _ _ _ Hd') Hme) as [A | A].
-        * apply (cconst_win prog NF H (m_verified mg) (m_verified me) beta d' CCd A). lia.
-        * destruct (N.le_gt_cases (m_verified mg) (m_verified me)) as [B | B].
-          -- apply (cconst_win prog NF H (m_verified mg) (m_verified me) beta d' CCd B). lia.
-          -- apply (cconst_trans prog NF H (m_verified me) (m_verified mg) beta d' A CCd); lia. }
-  destruct Hnode as (rho & k & Hbr & Hrc & Orho & TR & Hstale).
-  apply (good_exp prog NF pf H D s2 out beta g rho k Orho Hbr); rewrite TR.
+  assert (Hedge : forall e, In e (m_edges mg) ->
+            match e with
+            | EIn i => In (EIn i) out
+            | EQ e' => ~ In (EQ e') out -> good H D s2 out v e'
+            end).
+  { intros e He. pose proof (C g mg Hg (fun F => F) Hmg e He) as Hcv.
+    destruct e as [i | e'].
+    - destruct Hcv as [Ho | Hv]; [exact Ho|]. destruct (V _ Hv) as (g' & mg' & E0 & _). discriminate.
+    - intros Hn'. destruct Hcv as [Ho | Hv]; [contradiction|].
+      destruct (Hvis_memo e' Hv) as (me & Hme).
+      apply (IH e' me); [pose proof (edge_rank g mg e' Hmg He); lia | exact Hv | exact Hme|].
+      pose proof (mo_sync _ _ _ _ _ _ _ _ _ Hok Hz e' me He Hme). lia. }
+  apply (good_exp prog NF fm H D s2 out v g (m_verified mg) (m_dur mg)).
+  - apply Hot. apply (obs_of_memo prog NF fm H D F s g mg Hok).
+  - exact Hvg.
   - intros x Hx Hux. pose proof (mo_reads_cell _ _ _ _ _ _ _ _ _ Hok x Hx Hux) as A.
     pose proof (Hvt g mg Hg Hmg). congruence.
-  - intros i Hi. pose proof (C g mg Hg (fun X => X) Hmg _ (mo_in _ _ _ _ _ _ _ _ _ Hok i Hi)) as [Ho | Hv].
-    + exact Ho.
-    + destruct (V _ Hv) as (g' & mg' & E0 & _). discriminate.
-  - intros e me2 _ _ Hpe Hme2. rewrite (s2_pf e me2 Hme2) in Hpe. discriminate.
-  - intros d' Hd' Hn'.
-    pose proof (C g mg Hg (fun X => X) Hmg _ (Hdir d' Hd')) as [Ho | Hv]; [contradiction|].
-    destruct (Hvis_memo d' Hv) as (me & Hme).
-    pose proof (edge_rank g mg d' Hmg (Hdir d' Hd')) as Hrk.
-    apply (IH d' me rho ltac:(lia) Hv Hme); [lia | exact Hrc|].
-    intros Hlt. split; [apply (Hstale d' me Hd' Hme Hlt)|].
-    apply (obs_sub H D s2 g rho k d' Orho). rewrite TR. exact Hd'.
+  - intros i Hi. apply (Hedge _ (mo_in _ _ _ _ _ _ _ _ _ Hok i Hi)).
+  - intros d' Hd' Hn'. destruct (edge_in_dec (EQ d') (m_edges mg)) as [HinL | HnL].
+    + apply (Hedge _ HinL). exact Hn'.
+    + apply (good_subst H D s s2 (m_edges mg) out (m_verified mg) v d' Hot); [lia | exact Hvg | | |].
+      * intros i Hi. apply (Hedge _ Hi).
+      * intros e He Hne. apply (Hedge _ He). exact Hne.
+      * apply (mo_q _ _ _ _ _ _ _ _ _ Hok (Hvt g mg Hg Hmg) d' Hd' HnL).
 Qed.
 
 Lemma flat_reach g : In (EQ g) out -> reach prog q g.
@@ -472,31 +462,11 @@ Proof.
   apply (G _ Uo g eq_refl).
 Qed.
 
-(* the cover of a memo that was itself restored (its edges are leaves already): the nodes are
-   kept; a leaf that has a memo now and is expanded by this snapshot becomes a node *)
-Lemma good_subst : forall v0 d, good H D s L v0 d -> v <= v0 -> good H D s2 out v0 d.
-Proof.
-  intros v0 d Hg. induction Hg as [v0 d rho k Ho Hv Hu Hi Hl Hq IH]; intros Hvv.
-  destruct Hclosed3 as (V & C & Cov).
-  pose proof (ob_order _ _ _ _ _ _ _ _ Ho) as (_ & Hrc).
-  apply (good_exp prog NF pf H D s2 out v0 d rho k (Hot _ _ _ Ho) Hv Hu).
-  - intros i Hi0. destruct (Cov _ (Hi i Hi0)) as [A | A]; [exact A|].
-    destruct (V _ A) as (g' & mg' & E0 & _). discriminate.
-  - intros e me2 _ _ Hpe Hme2. rewrite (s2_pf e me2 Hme2) in Hpe. discriminate.
-  - intros d' Hd' Hn'. destruct (edge_in_dec (EQ d') L) as [HinL | HnL]; [|apply (IH d' Hd' HnL); lia].
-    destruct (Cov _ HinL) as [A | A]; [contradiction|].
-    destruct (Hvis_memo d' A) as (me & Hme).
-    apply (exp_good (S (rank d')) d' me rho (le_n _) A Hme); [lia | exact Hrc|].
-    intros Hlt. split; [|apply (obs_sub H D s2 d rho k d' (Hot _ _ _ Ho) Hd')].
-    destruct (Hl d' me Hd' HinL (vis_np d' A) Hme) as [B | B]; [lia | exact B].
-Qed.
-
 End OneMemo.
 
 (* the serialised memo of q, in the restored database *)
-Lemma flat_edges_ok q m' : d_memo s2 q = Some m' -> edges_ok uprog NF pf H D s2 q m'.
+Lemma flat_edges_ok q m' : d_memo s2 q = Some m' -> edges_ok uprog NF fm H D s2 q m'.
 Proof.
-  intros Hm'. pose proof (s2_pf q m' Hm') as Hpq. revert Hm'.
   rewrite Hm2. unfold snap_memo. fold mm.
   destruct (mm q) as [m|] eqn:Hm; [|discriminate].
   destruct (m_val m) as [x|] eqn:Hx; [|discriminate].
@@ -523,23 +493,27 @@ Proof.
                                     end) (snd (flatten_full pfam mm sfuel L)) = true).
       { apply existsb_exists. exists (EQ g). split; [exact Hg|]. rewrite Hmg. exact Hug. }
       congruence. }
-    pose proof (obs_of_memo prog NF pf H D F s q m Hok) as Oq.
+    destruct (N.eq_dec (m_dur m) 0) as [Hz | Hnz].
+    2:{ apply (good_never prog NF fm H D s2 L' (m_verified m) d (m_verified m) (m_dur m) Hfm); [lia | lia|].
+        apply (durge_q _ _ _ _ _ _ _ _ (mo_durge _ _ _ _ _ _ _ _ _ Hok) Hd). }
+    assert (Hedge : forall e, In (EQ e) L -> ~ In (EQ e) L' -> good H D s2 L' (m_verified m) e).
+    { intros e He Hne. destruct (Cov _ He) as [Ho | Hv]; [contradiction|].
+      destruct (V _ Hv) as (g' & me & E0 & Hme). injection E0 as <-.
+      apply (exp_good q m Hvt (S (rank e)) e me (le_n _) Hv Hme).
+      apply (mo_sync _ _ _ _ _ _ _ _ _ Hok Hz e me He Hme). }
     destruct (edge_in_dec (EQ d) L) as [HinL | HnL].
-    + destruct (Cov _ HinL) as [Ho | Hv]; [contradiction|].
-      destruct (V _ Hv) as (g' & md & E0 & Hmd). injection E0 as <-.
-      apply (exp_good q m Hvt (S (rank d)) d md (m_verified m) (le_n _) Hv Hmd); [lia | exact O3|].
-      intros Hlt. split; [|apply (obs_sub H D s2 q (m_verified m) (m_dur m) d (Hot _ _ _ Oq) Hd)].
-      destruct (mo_sync _ _ _ _ _ _ _ _ _ Hok d md HinL (clos_one _ _ _ _ _ _ Hd) Hmd) as [B | B]; [lia | exact B].
-    + apply (good_subst q m Hvt (m_verified m) d (mo_q _ _ _ _ _ _ _ _ _ Hok Hu d Hd HnL)). lia.
+    + apply Hedge; assumption.
+    + apply (good_subst H D s s2 L L' (m_verified m) (m_verified m) d Hot); [lia | lia | exact Hcov_in | exact Hedge|].
+      apply (mo_q _ _ _ _ _ _ _ _ _ Hok Hu d Hd HnL).
   - intros y Hy Huy. rewrite (mo_reads_cell _ _ _ _ _ _ _ _ _ Hok y Hy Huy). reflexivity.
   - intros g Hg. apply (flat_reach q m Hm g Hg).
-  - intros Hpf. unfold pf in Hpf. rewrite Hp in Hpf. discriminate.
-  - intros d md' Hd Hcl Hmd'. rewrite Hm2 in Hmd'. unfold snap_memo in Hmd'. fold mm in Hmd'.
+  - left. exact Hfm.
+  - intros Hz d md' Hd Hmd'. rewrite Hm2 in Hmd'. unfold snap_memo in Hmd'. fold mm in Hmd'.
     destruct (mm d) as [md|] eqn:Hmd; [|discriminate].
     destruct (m_val md); [|discriminate]. destruct (pfam (fst d)); [|discriminate].
     injection Hmd' as <-. cbn.
     destruct (flatten_fn pfam mm sfuel L d Hd) as [HinL | Hnone]; [|congruence].
-    apply (mo_sync _ _ _ _ _ _ _ _ _ Hok d md HinL Hcl Hmd).
+    apply (mo_sync _ _ _ _ _ _ _ _ _ Hok Hz d md HinL Hmd).
 Qed.
 
 End OneState.
@@ -555,13 +529,13 @@ Qed.
 
 (* the transfer, for a target s2 that has the restored memo table and the revisions and inputs of s *)
 Lemma restore_transfer H D F s s2 :
-  DInv_d uprog NF pf H D F s ->
+  DInv_d uprog NF fm H D F s ->
   d_revs s2 = d_revs s -> d_in s2 = d_in s -> d_memo s2 = snap_memo pfam (d_memo s) sfuel ->
   (forall c, sn_cell (H (cur s2)) c = d_cell s2 c) ->
   DInv H D (lift s F) s2.
 Proof.
   intros HI Hr Hi Hmm Hcell.
-  destruct (DInv_d_facts uprog NF pf H D F s HI) as (F1 & F2 & F3 & F4 & F5 & F6 & F7 & F8).
+  destruct (DInv_d_facts uprog NF fm H D F s HI) as (F1 & F2 & F3 & F4 & F5 & F6 & F7 & F8 & F9 & F10).
   assert (Hc : cur s2 = cur s) by (unfold cur; rewrite Hr; reflexivity).
   assert (Hcle : cur s <= cur s2) by lia.
   assert (Hlc : forall k, lcs s k <= lcs s2 k) by (intros k; unfold lcs; rewrite Hr; lia).
@@ -569,13 +543,14 @@ Proof.
   assert (Hpast : forall r, r <= cur s -> H r = H r /\ forall i, D r i = D r i) by (intros; split; reflexivity).
   assert (Hstamp : forall i, f_changed (d_in s i) <= f_changed (d_in s2 i)) by (intros i; rewrite Hi; lia).
   assert (HIm : forall g mg, d_memo s g = Some mg -> dmemo_ok H D F s g mg).
-  { intros g mg Hg. apply (dmemo_ok_same prog NF pf H D F (set_cell s (sn_cell (H (cur s))))); [reflexivity | reflexivity | reflexivity|].
+  { intros g mg Hg. apply (dmemo_ok_same prog NF fm H D F (set_cell s (sn_cell (H (cur s))))); [reflexivity | reflexivity | reflexivity|].
     apply (inv_memo _ _ _ _ _ _ _ HI g mg Hg). }
-  apply (DInv_transfer uprog rank Hrank NF pf H D F H D s s2 HI Hcle Hlc Hsub Hpast Hstamp); rewrite ?Hc, ?Hi, ?Hr; auto.
+  apply (DInv_transfer uprog rank Hrank NF fm H D F H D s s2 HI Hcle Hlc Hsub Hpast Hstamp); rewrite ?Hc, ?Hi, ?Hr; auto.
   - intros q m' Hm'.
-    apply (flat_edges_ok H D F s s2 HIm (obs_transfer uprog NF pf H D F H D s s2 HI Hcle Hlc Hsub Hpast) Hc Hmm q m' Hm').
+    apply (flat_edges_ok H D F s s2 HIm (obs_transfer uprog NF fm H D F H D s s2 HI Hcle Hlc Hsub Hpast) Hc Hmm q m' Hm').
   - rewrite <- Hc. exact Hcell.
   - intros r i Hlt Hl. apply F8; [exact Hlt|]. unfold lcs in *. rewrite Hr in Hl. exact Hl.
+  - intros Hf k Hk. specialize (F10 Hf k Hk). unfold lcs in *. rewrite Hr. exact F10.
 Qed.
 
 Theorem restore_flat_ok s ext :
@@ -593,11 +568,11 @@ Theorem restore_flat_ok_clean s ext :
 Proof.
   intros (H & D & F & HI) Hst Hce. split; [|reflexivity].
   exists H, D, (lift s F).
-  apply (restore_transfer H D F s _ (DInv_to_d uprog NF pf H D F s HI)); [reflexivity | reflexivity | reflexivity|].
+  apply (restore_transfer H D F s _ (DInv_to_d uprog NF fm H D F s HI)); [reflexivity | reflexivity | reflexivity|].
   intros c. cbn. rewrite Hce. apply (inv_cell _ _ _ _ _ _ _ HI).
 Qed.
 
-End NpClosed.
+End Flat.
 
 (* ---------------------------------------------------------------- the run *)
 (* the harness state: the database is ok; the serialised database, if any, was taken from an ok
@@ -624,8 +599,12 @@ Definition restore_good : Prop :=
   (forall s ext, OK s -> d_stack s = [] -> d_cell ext = d_cell s ->
                  state_ok false (restore (snapshot pfam sfuel s) ext lru0)).
 
+(* in flat mode the operations keep every durability LOW *)
+Definition low_op (o : op) : Prop :=
+  fm = true -> match o with OSet _ _ (Some d) => d = 0 | OSynth d => d = 0 | _ => True end.
+
 Lemma step_ok fuel now since p o :
-  (forall q, (rank q < fuel)%nat) -> Statement.dur_op o ->
+  (forall q, (rank q < fuel)%nat) -> Statement.dur_op o -> low_op o ->
   (o = ORestore -> restore_good) ->
   pstate_ok now since p ->
   match o with
@@ -641,20 +620,21 @@ Lemma step_ok fuel now since p o :
   | _ => pstate_ok now since (fst (pstep fuel p o))
   end.
 Proof.
-  intros Hfuel Hdop Hcl Hok. pose proof Hok as (Hdb & Hns & Himg).
+  intros Hfuel Hdop Hlop Hcl Hok. pose proof Hok as (Hdb & Hns & Himg).
   set (s := ps_db p) in *.
   assert (Hst : d_stack s = []) by (destruct Hdb; assumption).
   unfold Statement.pstep.
   destruct o as [i v d | d | c v | c v | q | fam n | | |]; cbn [step fst snd]; fold s; unfold pstate_ok; cbn [with_db ps_db ps_img].
   - (* OSet *)
-    destruct (db_set_ok now s i v d Hdop Hdb) as [H1 H2].
+    assert (Hld : low_dur d) by (intros Hf; specialize (Hlop Hf); destruct d; [exact Hlop | exact I]).
+    destruct (db_set_ok now s i v d Hdop Hld Hdb) as [H1 H2].
     destruct (f_dur (d_in (new_revision fams (zalsa_mut fams s)) i) =? D_NEVER) eqn:Hn; cbn [fst].
     + split; [exact H1|]. split; [discriminate|]. apply (img_keep now since p); [exact Hok|]. intros _.
       cbn. destruct (new_revision_facts (zalsa_mut fams s)) as (_ & B & _). rewrite B. apply zalsa_mut_cell.
     + split; [exact (H2 eq_refl)|]. split; [discriminate|]. apply (img_keep now since p); [exact Hok|]. intros _.
       cbn. destruct (new_revision_facts (zalsa_mut fams s)) as (_ & B & _). rewrite B. apply zalsa_mut_cell.
   - (* OSynth *)
-    destruct (db_synth_ok now s d Hdb) as [H1 H2].
+    destruct (db_synth_ok now s d Hlop Hdb) as [H1 H2].
     destruct (d =? D_NEVER); cbn [fst].
     + split; [exact H1|]. split; [discriminate|]. apply (img_keep now since p); [exact Hok|]. intros _.
       cbn. destruct (new_revision_facts (zalsa_mut fams s)) as (_ & B & _). rewrite B. apply zalsa_mut_cell.
@@ -695,8 +675,8 @@ Proof.
     split.
     + split; [|rewrite A4, zalsa_mut_stack; exact Hst].
       destruct now; destruct Hdb as [A _].
-      * apply (OK_d_same uprog rank Hrank NF pf (zalsa_mut fams s)); auto; [apply OK_d_zalsa_mut; exact A | apply evicted_sub_sim; exact A5].
-      * apply (OK_same uprog rank Hrank NF pf (zalsa_mut fams s)); auto; [apply OK_zalsa_mut; exact A | apply evicted_sub_sim; exact A5].
+      * apply (OK_d_same uprog rank Hrank NF fm (zalsa_mut fams s)); auto; [apply OK_d_zalsa_mut; exact A | apply evicted_sub_sim; exact A5].
+      * apply (OK_same uprog rank Hrank NF fm (zalsa_mut fams s)); auto; [apply OK_zalsa_mut; exact A | apply evicted_sub_sim; exact A5].
     + split; [exact Hns|]. apply (img_keep now since p); [exact Hok|]. intros _. rewrite A3. apply zalsa_mut_cell.
   - (* OSnapshot *)
     intros ->. split; [exact Hdb|]. split; [discriminate|].
@@ -721,19 +701,19 @@ Qed.
 (* ---------------------------------------------------------------- the results theorems *)
 Theorem results_general fuel :
   (forall q, (rank q < fuel)%nat) ->
-  forall ops now since p, Forall Statement.dur_op ops ->
+  forall ops now since p, Forall Statement.dur_op ops -> Forall low_op ops ->
     Statement.wf_ops now since ops ->
     (In ORestore ops -> restore_good) ->
     pstate_ok now since p ->
     Statement.known_class_free uprog noeq pfam fams lru0 sfuel fuel p ops ->
     Statement.results_ok_strict uprog noeq pfam fams lru0 NF sfuel fuel p ops.
 Proof.
-  intros Hfuel. induction ops as [|o ops IH]; intros now since p Hdur Hwf Hcl Hok Hk; [exact I|].
-  inversion Hdur as [|? ? Hdo Hdurs]; subst.
+  intros Hfuel. induction ops as [|o ops IH]; intros now since p Hdur Hlow Hwf Hcl Hok Hk; [exact I|].
+  inversion Hdur as [|? ? Hdo Hdurs]; subst. inversion Hlow as [|? ? Hlo Hlows]; subst.
   cbn [Statement.results_ok_strict Statement.known_class_free] in *. destruct Hk as [Hk1 Hk2].
   assert (Hcl1 : o = ORestore -> restore_good) by (intros ->; apply Hcl; now left).
   assert (Hcl2 : In ORestore ops -> restore_good) by (intros Hin; apply Hcl; now right).
-  pose proof (step_ok fuel now since p o Hfuel Hdo Hcl1 Hok) as Hs.
+  pose proof (step_ok fuel now since p o Hfuel Hdo Hlo Hcl1 Hok) as Hs.
   destruct o as [i v d | d | c v | c v | q | fam n | | |]; cbn [Statement.wf_ops] in Hwf.
   - split; [exact I|]. apply (IH false since); assumption.
   - split; [exact I|]. apply (IH false since); assumption.
@@ -749,10 +729,10 @@ Proof.
 Qed.
 
 Lemma init_ok iv idur :
-  (forall i, idur i <= 3) ->
+  (forall i, idur i <= 3) -> (fm = true -> forall i, idur i = 0) ->
   pstate_ok false false (pinit iv idur lru0).
 Proof.
-  intros Hid. split; [|split; [discriminate | intros img Hi; discriminate]].
+  intros Hid Hlow. split; [|split; [discriminate | intros img Hi; discriminate]].
   split; [|reflexivity].
   exists (fun _ => csnap (init iv idur lru0)), (fun _ => idur), (fun _ => None).
   constructor.
@@ -766,6 +746,10 @@ Proof.
   - intros r i _ _. split; reflexivity.
   - intros q m Hm. discriminate.
   - intros d rho c _ HF. discriminate.
+  - intros Hf r i. apply (Hlow Hf).
+  - intros Hf k Hk. unfold lcs, init; cbn.
+    destruct (lc_cases {| r_cur := REV_START; r_med := REV_START; r_high := REV_START |} k)
+      as [[-> E0] | [[-> E0] | [[-> E0] | [Hk3 E0]]]]; rewrite E0; cbn; unfold REV_START; lia.
 Qed.
 
 Lemma restore_good_closed : Statement.persisted_closed uprog pfam -> restore_good.
@@ -775,9 +759,9 @@ Proof.
   - intros s ext. apply restore_ok_clean. exact Hcl.
 Qed.
 
-Lemma restore_good_np : Statement.np_closed uprog pfam -> (forall p, (S (rank p) < sfuel)%nat) -> restore_good.
+Lemma restore_good_flat : fm = true -> (forall p, (S (rank p) < sfuel)%nat) -> restore_good.
 Proof.
-  intros Hn Hs. split.
+  intros Hf Hs. split.
   - intros s ext. apply restore_flat_ok; assumption.
   - intros s ext. apply restore_flat_ok_clean; assumption.
 Qed.
@@ -796,26 +780,62 @@ Hypothesis Hrank : Spec.calls_below prog rank.
 Variable NF : nat.
 Hypothesis Hbound : forall q, (rank q < NF)%nat.
 
-(* the common form: restores are allowed when the persisted functions only call persisted
-   functions (nothing is flattened away), or when the functions that are not persisted only call
-   functions that are not persisted (what is flattened away are memos with direct reads) *)
-Theorem results_strict fuel sfuel :
+Let no_low ops : Forall (low_op false) ops.
+Proof. apply Forall_forall. intros o _ Hf. discriminate. Qed.
+
+(* histories WITHOUT restore (snapshots allowed): C01 for the persist-mode model *)
+Theorem results_no_restore_strict fuel sfuel :
   (forall p, (rank p < fuel)%nat) ->
   forall iv idur ops,
     (forall i, idur i <= 3) -> Forall Statement.dur_op ops -> Statement.wf_ops false false ops ->
-    (~ In ORestore ops \/ Statement.persisted_closed prog pfam \/
-     (Statement.np_closed prog pfam /\ forall p, (S (rank p) < sfuel)%nat)) ->
+    ~ In ORestore ops ->
     Statement.known_class_free prog noeq pfam fams lru0 sfuel fuel (pinit iv idur lru0) ops ->
     Statement.results_ok_strict prog noeq pfam fams lru0 NF sfuel fuel (pinit iv idur lru0) ops.
 Proof.
-  intros Hfuel iv idur ops Hid Hdur Hwf Hcase Hk.
-  apply (results_general prog noeq pfam fams lru0 rank (calls_below_tb prog rank Hrank) NF Hbound sfuel fuel Hfuel
-           ops false false _ Hdur Hwf); [| apply init_ok; exact Hid | exact Hk].
-  intros Hin. destruct Hcase as [Hn | [Hc | [Hn Hs]]]; [contradiction | |].
-  - exact (restore_good_closed prog pfam lru0 rank (calls_below_tb prog rank Hrank) NF sfuel Hc).
-  - exact (restore_good_np prog pfam lru0 rank (calls_below_tb prog rank Hrank) NF sfuel Hn Hs).
+  intros Hfuel iv idur ops Hid Hdur Hwf Hnr Hk.
+  apply (results_general prog noeq pfam fams lru0 rank (calls_below_tb prog rank Hrank) NF Hbound sfuel false fuel Hfuel
+           ops false false _ Hdur (no_low ops) Hwf); [intros Hin; contradiction | | exact Hk].
+  apply init_ok; [exact Hid | discriminate].
 Qed.
 
+(* histories with snapshots AND restores, when persisted functions only call persisted ones *)
+Theorem results_closed_strict fuel sfuel :
+  (forall p, (rank p < fuel)%nat) ->
+  Statement.persisted_closed prog pfam ->
+  forall iv idur ops,
+    (forall i, idur i <= 3) -> Forall Statement.dur_op ops -> Statement.wf_ops false false ops ->
+    Statement.known_class_free prog noeq pfam fams lru0 sfuel fuel (pinit iv idur lru0) ops ->
+    Statement.results_ok_strict prog noeq pfam fams lru0 NF sfuel fuel (pinit iv idur lru0) ops.
+Proof.
+  intros Hfuel Hcl iv idur ops Hid Hdur Hwf Hk.
+  apply (results_general prog noeq pfam fams lru0 rank (calls_below_tb prog rank Hrank) NF Hbound sfuel false fuel Hfuel
+           ops false false _ Hdur (no_low ops) Hwf); [intros _; exact (restore_good_closed prog pfam lru0 rank (calls_below_tb prog rank Hrank) NF sfuel false Hcl) | | exact Hk].
+  apply init_ok; [exact Hid | discriminate].
+Qed.
+
+(* histories with snapshots AND restores, EVERY program and choice of persisted functions
+   (dependencies are flattened away to any depth), when all durabilities are LOW *)
+Theorem results_low_strict fuel sfuel :
+  (forall p, (rank p < fuel)%nat) -> (forall p, (S (rank p) < sfuel)%nat) ->
+  forall iv ops,
+    Forall Statement.low_op ops -> Statement.wf_ops false false ops ->
+    Statement.known_class_free prog noeq pfam fams lru0 sfuel fuel (pinit iv (fun _ => 0) lru0) ops ->
+    Statement.results_ok_strict prog noeq pfam fams lru0 NF sfuel fuel (pinit iv (fun _ => 0) lru0) ops.
+Proof.
+  intros Hfuel Hsfuel iv ops Hlow Hwf Hk.
+  assert (Hdur : Forall Statement.dur_op ops).
+  { apply Forall_forall. intros o Ho. rewrite Forall_forall in Hlow. specialize (Hlow o Ho).
+    destruct o as [i v [d|] | d | | | | | | |]; cbn in *; try exact I. lia. }
+  assert (Hl : Forall (low_op true) ops).
+  { apply Forall_forall. intros o Ho _. rewrite Forall_forall in Hlow. specialize (Hlow o Ho).
+    destruct o as [i v [d|] | d | | | | | | |]; cbn in *; auto. }
+  apply (results_general prog noeq pfam fams lru0 rank (calls_below_tb prog rank Hrank) NF Hbound sfuel true fuel Hfuel
+           ops false false _ Hdur Hl Hwf); [intros _; exact (restore_good_flat prog pfam lru0 rank (calls_below_tb prog rank Hrank) NF sfuel true eq_refl Hsfuel) | | exact Hk].
+  apply init_ok; [intros i; lia | intros _ i; reflexivity].
+Qed.
+
+
+(* ... and in the terms of the full statement (any panic of the base model allowed) *)
 Theorem results_no_restore fuel sfuel :
   (forall p, (rank p < fuel)%nat) ->
   forall iv idur ops,
@@ -825,7 +845,7 @@ Theorem results_no_restore fuel sfuel :
     Statement.results_ok prog noeq pfam fams lru0 NF sfuel fuel (pinit iv idur lru0) ops.
 Proof.
   intros Hfuel iv idur ops Hid Hdur Hwf Hnr Hk. apply Statement.results_ok_of_strict.
-  apply (results_strict fuel sfuel Hfuel iv idur ops Hid Hdur Hwf (or_introl Hnr) Hk).
+  apply (results_no_restore_strict fuel sfuel Hfuel iv idur ops Hid Hdur Hwf Hnr Hk).
 Qed.
 
 Theorem results_closed fuel sfuel :
@@ -837,21 +857,18 @@ Theorem results_closed fuel sfuel :
     Statement.results_ok prog noeq pfam fams lru0 NF sfuel fuel (pinit iv idur lru0) ops.
 Proof.
   intros Hfuel Hcl iv idur ops Hid Hdur Hwf Hk. apply Statement.results_ok_of_strict.
-  apply (results_strict fuel sfuel Hfuel iv idur ops Hid Hdur Hwf (or_intror (or_introl Hcl)) Hk).
+  apply (results_closed_strict fuel sfuel Hfuel Hcl iv idur ops Hid Hdur Hwf Hk).
 Qed.
 
-(* the full statement with ONE more hypothesis: the functions that are not persisted only call
-   functions that are not persisted — all durabilities, flattening to any depth *)
-Theorem results_np fuel sfuel :
+Theorem results_low fuel sfuel :
   (forall p, (rank p < fuel)%nat) -> (forall p, (S (rank p) < sfuel)%nat) ->
-  Statement.np_closed prog pfam ->
-  forall iv idur ops,
-    (forall i, idur i <= 3) -> Forall Statement.dur_op ops -> Statement.wf_ops false false ops ->
-    Statement.known_class_free prog noeq pfam fams lru0 sfuel fuel (pinit iv idur lru0) ops ->
-    Statement.results_ok prog noeq pfam fams lru0 NF sfuel fuel (pinit iv idur lru0) ops.
+  forall iv ops,
+    Forall Statement.low_op ops -> Statement.wf_ops false false ops ->
+    Statement.known_class_free prog noeq pfam fams lru0 sfuel fuel (pinit iv (fun _ => 0) lru0) ops ->
+    Statement.results_ok prog noeq pfam fams lru0 NF sfuel fuel (pinit iv (fun _ => 0) lru0) ops.
 Proof.
-  intros Hfuel Hsfuel Hn iv idur ops Hid Hdur Hwf Hk. apply Statement.results_ok_of_strict.
-  apply (results_strict fuel sfuel Hfuel iv idur ops Hid Hdur Hwf (or_intror (or_intror (conj Hn Hsfuel))) Hk).
+  intros Hfuel Hsfuel iv ops Hlow Hwf Hk. apply Statement.results_ok_of_strict.
+  apply (results_low_strict fuel sfuel Hfuel Hsfuel iv ops Hlow Hwf Hk).
 Qed.
 
 End Final.
